@@ -55,12 +55,31 @@ class RecDevice(object):
         self.closed += 1
 
 
-def attach(table, blocksize=0, responder=None):
+TYPES_FOR_TABLE = {"spc": [0x03], "sbc": [0x00, 0x04, 0x07], "ssc": [0x01], "smc": [0x08], "mmc": [0x05]}
+
+
+def attach(table, blocksize=0, responder=None, variant=None):
     """SCSI facade attached (through its real constructor) to a recording device whose
-    peripheral device type selects `table`."""
+    peripheral device type selects `table`.  With `variant` (an int) the device type is one of
+    the types the property maps to that table and the selection made by attach is kept and
+    verified; without it the table is forced after attaching."""
     import pyscsi.pyscsi.scsi_enum_command as ec
     from pyscsi.pyscsi.scsi import SCSI
 
+    if variant is not None:
+        from pbt.common import Violation
+
+        types = TYPES_FOR_TABLE[table]
+        devtype = types[variant % len(types)]
+        dev = RecDevice(devtype)
+        s = SCSI(dev, blocksize)
+        if dev.opcodes is not getattr(ec, table):
+            raise Violation("mismatch:attach_selected_another_command_set",
+                            {"devtype": devtype, "want": table,
+                             "got": [t for t in TYPES_FOR_TABLE if getattr(ec, t) is dev.opcodes]})
+        dev.calls.clear()
+        dev.responder = responder
+        return s, dev
     dev = RecDevice(TYPE_FOR_TABLE[table])
     s = SCSI(dev, blocksize)
     dev.opcodes = getattr(ec, table)
